@@ -262,7 +262,7 @@ Init ==
 Next ==
   \E n \in FileNames, t \in Templates :
     /\ Len(files[n]) < MaxPerFile[n]
-    /\ (t.t = "include" => t.file # n /\ ~(n = "b"))          \* include structure root -> a -> b, no cycles
+    /\ (t.t = "include" => t.file # n /\ n \notin {"b", "p"} /\ (n = "a" => t.file # "root"))   \* root -> a -> b / p, no cycles
     /\ files' = [files EXCEPT ![n] = Append(@, t)]
     /\ UNCHANGED <<skip, present>>
 Spec == Init /\ [][Next]_vars
